@@ -51,6 +51,12 @@ func c07One(lit string, cfg Cfg) (status, detail string) {
 		return "panic", co.Panic
 	}
 	oo := ref.RunJS(co.Code)
+	if oo.Interrupted {
+		if oo.Hang {
+			return "output-does-not-terminate", fmt.Sprintf("emitted %q", co.Code)
+		}
+		return "engine-rejects", "" // no verdict
+	}
 	if oo.String() != so.String() {
 		k := "value"
 		if oo.SyntaxError {
@@ -297,6 +303,30 @@ func c07Run(c *core.Ctx) {
 			b.add("- - " + q + body + q)
 			b.add("[" + q + body + q + ", -" + q + body + q + "][1]")
 		}
+	}
+	b.flush()
+
+	// literals in the positions where the printer treats them specially: object keys and member access on
+	// a number literal
+	b = B("literal-positions")
+	keys := []string{"a", "if", "0", "10", "01", "007", "08", "00", "1e3", "0x10", "-1", "1.0", "1.", ".5", "", " ", "a-b", "9007199254740993", "1_0", "$", "_", "é", "\\x41", "a b", "'", "true", "let", "NaN"}
+	for _, k := range keys {
+		for _, q := range []string{"'", "\""} {
+			if strings.Contains(k, q) {
+				continue
+			}
+			b.add("Object.keys({" + q + k + q + ": 1})[0]")
+			b.add("Object.keys({x: 0, " + q + k + q + ": 1, y: 2}).join('|')")
+			b.add("({" + q + k + q + ": 7})[" + q + k + q + "]")
+		}
+	}
+	for _, n := range []string{"0", "1", "7", "10", "255", "0x1f", "0b11", "0o17", "1e3", "1.5", "0.5", "1e-2", "9007199254740993", "00", "017"} {
+		b.add(n + " .toString()")
+		b.add("(" + n + ").toString()")
+		b.add(n + " .constructor === Number")
+		b.add(n + "[\"toFixed\"](1)")
+		b.add("-" + n + " .toFixed(1)")
+		b.add("a == " + n + " .valueOf()")
 	}
 	b.flush()
 
